@@ -5,7 +5,7 @@
    execution after every action; `no_err err_Cxx m` = the monitor reported no error of this property's class;
    `no_raise ls` = no request ended in an exception. *)
 From Coq Require Import ZArith List Bool.
-From CS Require Ops RevConv RevBridge4 RevolveRun Refuted DiskRun DiskBridge3 HRevRun HRevTop GenLang GenBasic GenLang2 GenTwo GenLang3 GenMulti GenLang4 GenConv.
+From CS Require Ops RevConv RevBridge4 RevolveRun Refuted DiskRun DiskBridge3 HRevRun HRevTop GenLang GenBasic GenLang2 GenTwo GenLang3 GenMulti GenLang4 GenConv GenLang5 GenMixed.
 From CS Require Import Actions NAdvance Multistage Exec Sched RunFacts Projections BasicInv MultistageRun AllocTotal TLBridge MixBridge.
 Import ListNotations.
 Open Scope Z_scope.
@@ -290,4 +290,21 @@ Theorem C02_revolve_family_converter_is_source :
 Proof. exact (@GenConv.conv_from_start). Qed.
 Print Assumptions C02_revolve_family_converter_is_source.
 End M_C02_revolve_family_converter_is_source.
+
+(* THE MODEL OF MixedCheckpointSchedule IS THE SOURCE: GenMixed.mixed_prog_model is the program (generator language GenLang5: the stack snapshots of (step type, n0, n1) triples, the set snapshot_n, the planner read as a function, step-type / integer / boolean locals, break) that harness/translate.py produces from MixedCheckpointSchedule._iterator; Gen/MixedGen.v re-translates the current source on every run and proves it equal to that term by conversion.  For every planner the constructor can select (the table of mixed_steps_tabulation or mixed_step_memoization behind its cache) and under EVERY history of next() and finalize(k) calls, resuming that program request by request from the freshly constructed object gives exactly the observations (outcome, n, r, max_n, is_exhausted) of the schedule object of Model/Sched.v (hand-written machine Mixed.resume) -- up to the first exception the latter raises (raise_free: none on the documented domain, by the Mixed run theorems of this file); the invariant carried through is that the set snapshot_n holds exactly the distinct first components of the stack (GenMixed.sinv), which is why the model needs no set *)
+Module M_C02_mixed_source_is_model.
+Import GenMixed.
+Theorem C02_mixed_source_is_model :
+  forall (n s : Z) (sg : Actions.storage) (tab : bool) (hist : list Online.op) (sch : Sched.sched),
+         Sched.construct (Sched.PMixed n s sg tab) = Actions.Ok sch ->
+         GenConv.raise_free (GenMulti.srun_ops sch hist) ->
+         exists s' : Z,
+           Mixed.construct n s sg = Actions.Ok s' /\
+           (forall f : Z -> Z -> Actions.res Mixed.plan_t,
+            planner n s' tab = Actions.Ok f ->
+            grun_ops (mcfg n s' sg f) [GenLang5.FS mixed_prog_model] (g_init n) hist =
+            GenMulti.srun_ops sch hist).
+Proof. exact (@GenMixed.mixed_from_start). Qed.
+Print Assumptions C02_mixed_source_is_model.
+End M_C02_mixed_source_is_model.
 
